@@ -510,7 +510,15 @@ def run(chk, fname, values_only):
     results = I.run_function(func, mk, max_paths=3000)
     for pi, (path, out, obls, writes, cur) in enumerate(results):
         I.st["w"] = cur["w"]
-        _one(chk, func, values_only, pi, path, out, cur["w"])
+        n_before = len(chk.obs)
+        try:
+            _one(chk, func, values_only, pi, path, out, cur["w"])
+        except Unsupported as e:
+            # an engine limit met while *stating* the clauses of this path (lazy elements are evaluated then): the path's
+            # clauses are undischarged, not a checker crash
+            del chk.obs[n_before:]
+            for nm in (VALUE_CLAUSES if values_only else ITEM_CLAUSES):
+                chk.add(Ob(func, nm, f"p{pi}", path.hyps, z3.BoolVal(False), {"engine": f"Unsupported {e}"}))
     chk.add(Ob(func, "cover", "pre", results[0][0].hyps, z3.BoolVal(True), expect="sat"))
     chk.trusted.update(I.assumed_used)
     chk.functions.update(q for q in I.called if q.startswith("typelib."))
